@@ -1,6 +1,7 @@
 package memory
 
 import (
+	"mltwist/internal/exprtransform"
 	"mltwist/internal/state/interval"
 	"mltwist/pkg/expr"
 	"mltwist/pkg/expr/exprtools"
@@ -75,7 +76,8 @@ func (m *Sparse) Load(addr model.Addr, w expr.Width) (expr.Expr, bool) {
 	if low := ints[0].Low; low == addr {
 		finalEx = ints[0].Val.expr()
 	} else {
-		finalEx = ints[0].Val.cutBegin(expr.Width(addr - low)).expr()
+		// Keep just the bytes starting at addr.
+		finalEx = ints[0].Val.cutBegin(expr.Width(ints[0].High - addr)).expr()
 	}
 
 	for _, o := range ints[1:] {
@@ -83,14 +85,16 @@ func (m *Sparse) Load(addr model.Addr, w expr.Width) (expr.Expr, bool) {
 		if o.High <= end {
 			ex = o.Val.expr()
 		} else {
-			ex = o.Val.cutEnd(expr.Width(o.High - end)).expr()
+			// Keep just the bytes in front of end.
+			ex = o.Val.cutEnd(expr.Width(end - o.Low)).expr()
 		}
 
 		ex = expr.NewBinary(expr.Lsh, ex, expr.ConstFromUint((o.Low-addr)*8), w)
 		finalEx = exprtools.BitOr(finalEx, ex, w)
 	}
 
-	return finalEx, true
+	// The first interval can reach behind the end of the range read.
+	return exprtransform.SetWidth(finalEx, w), true
 }
 
 func (m *Sparse) Store(addr model.Addr, ex expr.Expr, w expr.Width) {
